@@ -269,6 +269,22 @@ static void c02_check(const codec_t *c, input_t in, uint64_t g, rng_t *r) {
             STAT_INC("c02_random_access_probes");
         }
     }
+    /* FOR: decode-modify-re-encode cycle with the meta obtained from the header reader (here without a modification:
+     * the bytes must come out identical) */
+    if (!strncmp(c->name, "for", 3) && rn == n && n < (1u << 20)) {
+        varintFORMeta rm;
+        memset(&rm, 0, sizeof rm);
+        g_ctx = "varintFORReadMetadata";
+        varintFORReadMetadata(enc, &rm);
+        uint8_t *again = malloc(scratch_size(n));
+        g_ctx = !strncmp(c->name, "for.batch", 9) ? "varintFORBatchEncode(meta from ReadMetadata)" : "varintFOREncode(meta from ReadMetadata)";
+        size_t r2 = !strncmp(c->name, "for.batch", 9) ? varintFORBatchEncode(again, in.a, n, &rm) : varintFOREncode(again, in.a, n, &rm);
+        if (r2 != ret || memcmp(again, dst, ret)) {
+            viol(KEY(key, c, "re-encode-with-header-read-meta-differs"), "n=%zu first encoding %zu bytes, re-encoding with the meta from varintFORReadMetadata %zu bytes input=%s", n, ret, r2, arr_preview(in.a, n));
+        }
+        free(again);
+        STAT_INC("c02_for_reencodes_with_header_read_meta");
+    }
     /* FOR block reader */
     if (!strcmp(c->name, "for") || !strcmp(c->name, "for.batch")) {
         for (int k = 0; k < 4; k++) {
@@ -327,8 +343,13 @@ static int g_worst_shape = -1; /* force a shape of c03_worst */
 static void c03_worst(const codec_t *c, rng_t *r, uint64_t *a, size_t n) {
     unsigned bits = (unsigned)c->elembits;
     uint64_t top = bits == 64 ? UINT64_MAX : 0xffffffffULL;
-    uint64_t shape = rng_below(r, 6);
+    uint64_t shape = rng_below(r, 7);
     if (g_worst_shape >= 0) shape = (uint64_t)g_worst_shape;
+    if (shape == 6) { /* bimodal with the wide values in the majority: a small cluster below any low percentile */
+        uint64_t pct = 52 + rng_below(r, 30);
+        for (size_t i = 0; i < n; i++) a[i] = rng_below(r, 100) < pct ? (top - rng_below(r, top >> 4)) : rng_below(r, 1 + (rng_chance(r, 1, 2) ? 200 : 60000));
+        return;
+    }
     switch (shape) {
     case 0: /* all values maximal width, unique */
         for (size_t i = 0; i < n; i++) a[i] = (rng_next(r) | (1ULL << (bits - 1))) & top;
@@ -404,6 +425,34 @@ static void c03_case(uint64_t idx, rng_t *r) {
         input_alloc(&in, n, g);
         gen_array_model(r, AM_PERIODIC, in.a, n, 64);
         in.model = AM_PERIODIC;
+    }
+    if (!strncmp(c->name, "rle", 3) && rng_chance(r, 1, 10)) {
+        /* runs laid out against 4 KiB page boundaries of the input: a run ending with the last element of a page,
+         * followed by runs that fill whole pages (multiples of 512 elements), at every start offset within a page */
+        size_t off = rng_below(r, 512);
+        size_t first = (512 - off) + 512 * rng_below(r, 2);
+        size_t lens[6];
+        size_t nr = 2 + rng_below(r, 4), total = first;
+        lens[0] = first;
+        for (size_t k = 1; k < nr; k++) {
+            lens[k] = rng_chance(r, 2, 3) ? 512 * (1 + rng_below(r, 3)) : 1 + rng_below(r, 700);
+            total += lens[k];
+        }
+        void *pg = NULL;
+        if (posix_memalign(&pg, 4096, (off + total) * 8) == 0) {
+            free(in.base);
+            in.base = pg;
+            in.a = in.base + off;
+            in.n = total;
+            size_t at = 0;
+            uint64_t v = gen_value(r);
+            for (size_t k = 0; k < nr; k++) {
+                for (size_t i = 0; i < lens[k]; i++) in.a[at++] = v;
+                v += 1 + rng_below(r, 1000);
+            }
+            in.model = AM_NMODELS;
+            STAT_INC("c03_rle_runs_laid_out_on_page_boundaries");
+        }
     }
     if ((!strcmp(c->name, "adaptive.DICT") || !strncmp(c->name, "dict", 4)) && g_param[1] && (idx % g_param[1]) == 1) {
         /* the adaptive bound is only approached by a large all-unique dictionary (3-byte indices) */
